@@ -81,6 +81,8 @@ CONFIGS = [
     ("ns_cov", "solver.NewtonSchulzPseudoinverse", {"gamma": 1.0, "max_iter": 12, "compute_residuals": False},
      "compute", NS_POOL),
     ("hon", "solver.HigherOrderNewtonSchulzPseudoinverse", {"max_iter": 8, "tol": 1e-10}, "compute", NS_POOL),
+    ("hon_tol0", "solver.HigherOrderNewtonSchulzPseudoinverse", {"max_iter": 6, "tol": 0.0}, "compute", NS_POOL),
+    ("gmres_falsy", "solver.QGMRESSolver", {"tol": 1e-8, "max_iter": 0, "preconditioner": None, "verbose": False}, "solve", GM_POOL),
     ("gmres_verbose", "solver.QGMRESSolver", {"tol": 1e-8, "verbose": True, "preconditioner": "left_lu"}, "solve", GM_POOL),
     ("rsp_verbose", "solver.RandomizedSketchProjectPseudoinverse",
      {"block_size": 2, "max_iter": 12, "tol": 1e-6, "verbose": True, "column_solver": "spd"}, "compute", PINV_POOL),
@@ -603,6 +605,20 @@ def gen_jobs(base_seed, tier, budget=None):
             for w in exh_worlds:
                 jobs.append({"seed": base_seed * 10 ** 6 + 700000 + sid,
                              "trace": gen_recovery(base_seed * 10 ** 6 + 700000 + sid, w, cfgname, p1, p2, picks)})
+            sid += 1
+    # re-configuration: every mirrored attribute is switched between its candidate values on a live
+    # object (in particular from a falsy value to a real one), a call after every switch
+    for cfgname, cls_, cfg_, meth_, pool_ in CONFIGS:
+        for attr, vals in RECONFIG.get(cls_, []):
+            for w in exh_worlds:
+                seed = base_seed * 10 ** 6 + 620000 + sid
+                steps = [{"k": "rng", "op": "seed", "v": 55}, {"k": "new", "obj": "s0", "cls": cls_, "cfg": cfg_},
+                         {"k": "call", "obj": "s0", "meth": meth_, "args": pool_[1], "client": 0, "cfgname": cfgname}]
+                for v in list(vals) + [vals[0]]:
+                    steps.append({"k": "setattr", "obj": "s0", "attr": attr, "v": v, "client": 1})
+                    steps.append({"k": "call", "obj": "s0", "meth": meth_, "args": pool_[1], "client": 0, "cfgname": cfgname})
+                jobs.append({"seed": seed, "trace": {"prop": PROP, "seed": seed, "world": w, "mode": "buffer",
+                                                     "cfgname": cfgname, "seq": ["reconfig", attr], "steps": steps}})
             sid += 1
     # buffer reuse: the same ndarray object, refilled in place with another problem of the same
     # shape, handed to the same solver object (defeats caches keyed by object identity)
